@@ -220,7 +220,7 @@ func ruleC02RefSiblings(c *Ctx) {
 	}
 	// the draft-07 short-circuit: an If on draft == draft7 whose true successor returns nil
 	var short *ssa.If
-	core.EachInstr(m.E, func(i ssa.Instruction) {
+	c.eachFamOwn(m.E, func(i ssa.Instruction) {
 		ifi, ok := i.(*ssa.If)
 		if !ok {
 			return
